@@ -64,7 +64,15 @@ def exc_name(e):
 # ---------------------------------------------------------------------------
 SINGLE = list(getattr(CommandParser, "_CommandParser__bad_single_lines"))
 MULTI = list(getattr(CommandParser, "_CommandParser__bad_lines"))
-EXTRA_POOL = ["error: no data", "cannot open", "permission denied", "timed out waiting"]
+EXTRA_POOL = ["error: no data", "cannot open", "permission denied", "timed out waiting",
+              # phrases are plain text, whatever characters they contain
+              "failed to connect (timeout)", "usage: lsfoo [options]", "no such device.", "unknown option a.b",
+              "*** fatal", "error (code [5])", "can't stat /dev/sd?", "a+b not supported"]
+# text that does NOT contain the phrase but would match it if the phrase were read as a regular expression
+LOOKALIKE = {"failed to connect (timeout)": "failed to connect timeout", "usage: lsfoo [options]": "usage: lsfoo s",
+             "no such device.": "no such devices", "unknown option a.b": "unknown option a-b",
+             "error (code [5])": "error code 5", "can't stat /dev/sd?": "can't stat /dev/s", "a+b not supported": "aab not supported"}
+META = set("()[].*+?")
 
 
 def cmd_flags(text, extra):
@@ -87,6 +95,10 @@ def run_cmd(inp, rng, stats):
             parts.append(recase(rng, rng.choice(extra)))
         rng.shuffle(parts)
         words = [rng.choice(FILL) for _ in range(rng.randrange(0, 3))]
+        if not c["ex"] and rng.random() < 0.4:
+            look = [LOOKALIKE[e] for e in extra if e in LOOKALIKE]
+            if look:
+                words.append(recase(rng, rng.choice(look)))
         pos = rng.randrange(3)          # phrase at the start, in the middle, at the end of the line
         glue = rng.choice([" ", ": ", " - ", "/"])
         body = glue.join(parts)
@@ -132,7 +144,7 @@ def run_cmd(inp, rng, stats):
         outcome = exc_name(e)
     stats["cmd_" + outcome.split(":")[0]] = stats.get("cmd_" + outcome.split(":")[0], 0) + 1
     return [dict(ev="cmd", lines=inp["lines"], extra=bool(inp["extra"]), outcome=outcome, seen=seen,
-                 text=lines[:6])]
+                 meta=any(ch in META for e in extra for ch in e), text=lines[:6], extra_bad_lines=extra)]
 
 
 # ---------------------------------------------------------------------------
@@ -379,6 +391,7 @@ def run_doc(inp, rng, stats):
     cdoc = concretise_doc(inp["doc"], {}, rng) if not inp.get("concrete") else inp["doc"]
     lines = render_doc(fmt, cdoc, rng)
     indented = False
+    blank_noise = False
     if fmt == "json" and cdoc["t"] not in ("empty", "bad"):
         # white space around JSON tokens is insignificant: indent the document's lines (all alike, or each on its
         # own), pad them on the right; the start line after noise may thus begin with blanks or a tab
@@ -397,7 +410,14 @@ def run_doc(inp, rng, stats):
         pool = ["WARNING: plugin loaded", "Loaded plugins: a, b", "  note: something (x)", "= header =",
                 "time=12 level=info", "\"quoted\" noise", "12345 packages", "]{ not a start"]
         nl = [rng.choice(pool) for _ in range(noise)]
+        if cdoc["t"] != "empty":
+            # blank and white-space-only lines are noise too, in any position (not before an empty document: the
+            # content would then be nothing but white space)
+            nl = [rng.choice(["", " ", "    ", "\t"]) if rng.random() < 0.3 else l for l in nl]
+        blank_noise = any(not l.strip() for l in nl)
         for l in nl:
+            if not l.strip():
+                continue
             if l.strip().startswith(("{", "[")):
                 raise Machinery("noise line starts like JSON")
             try:
@@ -439,7 +459,7 @@ def run_doc(inp, rng, stats):
     except Exception as e:      # noqa
         outcome = exc_name(e)
     stats["doc_" + outcome.split(":")[0]] = stats.get("doc_" + outcome.split(":")[0], 0) + 1
-    return [dict(ev="doc", fmt=fmt, noise=noise, doc=cdoc, outcome=outcome, value=value, ind=indented,
+    return [dict(ev="doc", fmt=fmt, noise=noise, doc=cdoc, outcome=outcome, value=value, ind=indented, bn=blank_noise,
                  text=[l[:200] for l in lines[:8]])]
 
 
